@@ -18,7 +18,11 @@ for i in ids:
     t0 = time.time()
     # changes that only show under conditions another property's check is responsible for (device
     # errors -> C11, a write reported wrongly -> C01): that check is run too when the own one holds
-    EXTRA = {'C02-r4': ['C01'], 'C03-r4': ['C11'], 'C05-r4': ['C11'], 'C07-r4': ['C11'], 'C09-r4': ['C11']}
+    EXTRA = {'C02-r4': ['C01'], 'C03-r4': ['C11'], 'C05-r4': ['C11'], 'C07-r4': ['C11'], 'C09-r4': ['C11'],
+             # round 6: a close under a device write error (C08 injects none); a cluster count one too high
+             # (capacity and the partition's bounds are what C05 / C04 decide; C01's statement is silent on them)
+             'C08-m5': ['C11'], 'C01-m6': ['C05']}
+    WHY = {'C11': 'block-device errors', 'C01': 'a misreported write', 'C05': 'a volume filled to its last cluster (capacity is what C05 decides)'}
     caught_by = None
     checks_run = []
     for chk in [prop] + EXTRA.get(i, []):
@@ -40,7 +44,7 @@ for i in ids:
         'agent_ran': am.get('ran', ''),
         'confirmed_by_me': 'tools/confirm_seeded.sh: demo passes on clean tree, fails with patch; baseline `cargo test --offline` green with patch',
         'check_run': f'tools/mutant.sh {i} patch:/verif/seeded/{i}/patch.diff {prop}  (= SDV_REPO=<scratch worktree> ./check {prop} --no-evidence --no-legs)',
-        'verdict_of_quick_check': verdict if caught_by in (None, prop) else f'VIOLATED (by {caught_by}; own check {prop}: HELD - the change needs ' + ('block-device errors' if caught_by == 'C11' else 'a misreported write') + ')',
+        'verdict_of_quick_check': verdict if caught_by in (None, prop) else f'VIOLATED (by {caught_by}; own check {prop}: HELD - the change needs ' + WHY.get(caught_by, 'conditions that check creates') + ')',
         'checks_run': checks_run,
         'first_signatures': sigs,
         'wall_s': round(time.time() - t0, 1),
